@@ -168,6 +168,9 @@ class chebyshev {
             return b;
         }
 
+#ifdef AMGCL_VERIF
+    friend struct ::amgcl::verif::access;
+#endif
     private:
         std::shared_ptr<typename Backend::matrix_diagonal> M;
         mutable std::shared_ptr<vector> p, r;
